@@ -2,7 +2,8 @@
    Only statements, each closed by a short proof ending in [exact <lemma>]. *)
 From Coq Require Import List NArith Bool Arith Lia Sorted.
 Import ListNotations.
-From JV Require Import Model.LexBase Model.LexTokeniter Spec.LexTrimSpec Proofs.LexInv Proofs.LexTrim Proofs.LexCfg.
+From JV Require Import Model.LexBase Model.LexTokeniter Spec.LexTrimSpec Proofs.LexInv Proofs.LexTrim Proofs.LexCfg
+  Proofs.LexSkelA Proofs.LexSkelB Proofs.LexSkelC Proofs.LexSkelD.
 Open Scope N_scope.
 
 (* compile_rules sorts by decreasing start-string length, for every configuration ... *)
@@ -20,6 +21,44 @@ Theorem C13_longest_start_wins : forall c prev s k n sg,
 Proof. intros c prev s k n sg H. exact (try_alts_longest c _ prev s k n sg (compile_rules_sorted c) H). Qed.
 Print Assumptions C13_longest_start_wins.
 
+(* Delimiter invariance, EVERY skeleton: two configurations whose delimiters satisfy the bundle
+   of local facts [skel_cfg] (a consistent delimiter substitution: unparse writes the same
+   skeleton with each configuration's own strings) and that agree on trim_blocks / lstrip_blocks
+   give the same data for every well-formed skeleton whose texts are delimiter-free for both. *)
+Theorem C13_delimiter_invariance : forall c c' txt txt' sk,
+  skel_cfg c txt -> skel_cfg c' txt' -> c_trim c = c_trim c' -> c_lstrip c = c_lstrip c' ->
+  skel_wf txt sk = true -> skel_wf txt' sk = true ->
+  render_data c (unparse c sk) = render_data c' (unparse c' sk).
+Proof. intros c c' txt txt' sk H H' Et El Hw Hw'. exact (delimiter_invariance c c' txt txt' sk H H' Et El Hw Hw'). Qed.
+Print Assumptions C13_delimiter_invariance.
+
+(* ... in particular between the default delimiters, <% %> <%= %> <%# #%> (block start a prefix of
+   the two other start strings: this is where longest_start_wins is needed) and $% %$ ${ } $# #$,
+   for all skeletons with texts free of '{', '<', '$' and CR, under all four settings *)
+Theorem C13_delimiter_invariance_families : forall t l sk,
+  skel_wf (fun x => txt_of 123 x && txt_of 60 x && txt_of 36 x) sk = true ->
+  render_data (cfg_asp t l false [10]) (unparse (cfg_asp t l false [10]) sk)
+    = render_data (cfg_default t l false [10]) (unparse (cfg_default t l false [10]) sk) /\
+  render_data (cfg_dollar t l false [10]) (unparse (cfg_dollar t l false [10]) sk)
+    = render_data (cfg_default t l false [10]) (unparse (cfg_default t l false [10]) sk).
+Proof.
+  intros t l sk H.
+  assert (W : forall h, (forall x, txt_of 123 x && txt_of 60 x && txt_of 36 x = true -> txt_of h x = true) ->
+              skel_wf (txt_of h) sk = true) by (intros h Hh; exact (skel_wf_weaken _ _ sk Hh H)).
+  assert (W1 : skel_wf (txt_of 123) sk = true)
+    by (apply W; intros x Hx; apply andb_true_iff in Hx as [Hx _]; apply andb_true_iff in Hx as [Hx _]; exact Hx).
+  assert (W2 : skel_wf (txt_of 60) sk = true)
+    by (apply W; intros x Hx; apply andb_true_iff in Hx as [Hx _]; apply andb_true_iff in Hx as [_ Hx]; exact Hx).
+  assert (W3 : skel_wf (txt_of 36) sk = true)
+    by (apply W; intros x Hx; apply andb_true_iff in Hx as [_ Hx]; exact Hx).
+  split.
+  - exact (delimiter_invariance _ _ _ _ sk (skel_cfg_asp t l) (skel_cfg_default t l) eq_refl eq_refl W2 W1).
+  - exact (delimiter_invariance _ _ _ _ sk (skel_cfg_dollar t l) (skel_cfg_default t l) eq_refl eq_refl W3 W1).
+Qed.
+Print Assumptions C13_delimiter_invariance_families.
+
+(* Regression instance kept from the first round (includes <!-- -->, whose end string starts with '-'
+   and is therefore outside the bundle): *)
 (* Delimiter invariance, small scope (Coq-checked enumeration, NOT the unbounded statement):
    every skeleton  text tag text  of the stated domain written with the default delimiters,
    with <% %> / <%= %> / <!-- --> (a start string that is a prefix of another) and with
